@@ -1,4 +1,6 @@
 import Resgate.Proofs.GwPure
+import Resgate.Proofs.CloseRun
+import Resgate.Proofs.Release
 
 /-
 C11 — Disconnect cleanup at any moment.
@@ -14,5 +16,89 @@ theorem disposed_is_silent (g : Gw) (cid : Nat) (it : KItem)
     (h : ((g.conns.find? (·.cid == cid)).getD default).disposing = true) :
     (connEnqueue cid it).run g = (false, g) :=
   Gw.connEnqueue_disposing g cid it h
+
+/-- **Closing a connection releases exactly what it holds, in any state of the gateway** — with any
+    requests, loads, access checks or queued events of that connection outstanding (they are part
+    of `g` and play no role). For a live connection `c` whose subscription map has one object per
+    entry, the model's `wsConn.dispose` (`disposeConn`, the definition the lockstep correspondence
+    runs against the real gateway):
+    * marks the connection, empties its subscription map, takes it out of the token-reset fan-out
+      and emits the unsubscribe of its connection events — and nothing else is emitted;
+    * leaves every one of its subscriptions disposed;
+    * leaves every other connection exactly as it was;
+    * changes no cache entry except for appending to its queue exactly one `unsubscribe` item per
+      subscription of this connection that held one of the entry's resources (content, use count,
+      locks, other subscribers untouched at this point; the count drops by one when the entry's
+      worker takes the item, C09);
+    * issues no request and touches no throttle and no index entry. -/
+theorem disconnect_releases_exactly (g : Gw) (cid : Nat) (c : Conn)
+    (hc : g.conns.find? (·.cid == cid) = some c) (hlive : c.disposing = false)
+    (hnd : (c.subs.map (·.2)).Nodup) :
+    let g' := ((disposeConn cid).run g).2
+    (connOf g' cid).disposing = true ∧ (connOf g' cid).subs = [] ∧ cid ∉ g'.live ∧
+    (∀ u ∈ c.subs.map (·.2), (subOf g' cid u).state = .disposed) ∧
+    (∀ k, k ≠ cid → connOf g' k = connOf g k) ∧
+    (∀ eid, ∃ items : List (Nat × CItem),
+      tget g'.entries eid = { tget g.entries eid with queue := (tget g.entries eid).queue ++ items } ∧
+      List.Perm (items.map (·.2)) (releasesFor g cid eid (c.subs.map (·.2)))) ∧
+    g'.reqs = g.reqs ∧ g'.throttles = g.throttles ∧ g'.index = g.index ∧
+    g'.out = g.out.push s!"U conn.{cname cid}" :=
+  Gw.disposeConn_spec g cid c hc hlive hnd
+
+/-- Closing twice is closing once. -/
+theorem dispose_idempotent (g : Gw) (cid : Nat) (h : (connOf g cid).disposing = true) :
+    ((disposeConn cid).run g).2 = g := by
+  rw [Gw.disposeConn_run]; simp [h]
+
+/-- What a subscription gives back: nothing if it is disposed already, never got a resource or saw
+    its resource deleted; otherwise exactly one `unsubscribe` of itself at the entry it holds. -/
+theorem release_spec (cid : Nat) (s : Sub) :
+    (s.release cid = none ↔ s.state = .disposed ∨ s.res = none ∨ s.state = .deleted) ∧
+    (∀ eid it, s.release cid = some (eid, it) →
+      ∃ rs, s.res = some (eid, rs) ∧ it = CItem.unsubscribe rs ⟨cid, s.uid⟩) := by
+  unfold Sub.release
+  constructor
+  · by_cases hd : s.state = .disposed
+    · simp [hd]
+    · cases hr : s.res with
+      | none => simp [hd]
+      | some p =>
+        obtain ⟨e, r⟩ := p
+        by_cases hx : s.state = .deleted <;> simp [hd, hx]
+  · intro eid it h
+    by_cases hd : s.state = .disposed
+    · simp [hd] at h
+    · cases hr : s.res with
+      | none => simp [hd, hr] at h
+      | some p =>
+        obtain ⟨e, r⟩ := p
+        by_cases hx : s.state = .deleted
+        · simp [hd, hr, hx] at h
+        · simp [hd, hr, hx] at h
+          exact ⟨r, by rw [h.1], h.2.symm⟩
+
+/-- When the entry's worker takes a release item (`CItem.unsubscribe rs sub`, run as
+    `Entry.dropSub` followed by `removeCount 1`): exactly that subscriber leaves exactly that
+    resource, nothing else of the entry changes, and the use count drops by exactly one — "shared
+    cache entries lose exactly that connection's uses". -/
+theorem release_item_gives_back_one_use (e : Entry) (rs : Nat) (sub : SubRef) :
+    (tget (e.dropSub rs sub).ress rs).subs = (tget e.ress rs).subs.filter (· != sub) ∧
+    (∀ r', r' ≠ rs → tget (e.dropSub rs sub).ress r' = tget e.ress r') ∧
+    (tget (e.dropSub rs sub).ress rs).model = (tget e.ress rs).model ∧
+    (tget (e.dropSub rs sub).ress rs).coll = (tget e.ress rs).coll ∧
+    (e.dropSub rs sub).queue = e.queue ∧ (e.dropSub rs sub).locks = e.locks ∧
+    (removeCountPure (e.dropSub rs sub).count 1 (e.dropSub rs sub).evictPending).1 = e.count - 1 := by
+  obtain ⟨h1, h2, h3, _, _, _, h7, h8, h9, _, _, h12⟩ := Gw.dropSub_spec e rs sub
+  exact ⟨h7, h12, h8, h9, h2, h3, by rw [Gw.release_count, h1]⟩
+
+/-- Non-vacuity: a gateway with connection 0 holding subscription 1 on resource 9 of entry 5 and
+    connection 1 holding subscription 2 on the same resource: closing connection 0 hands entry 5
+    exactly one item and entry 6 none. -/
+def g0 : Gw :=
+  { conns := [{ cid := 0, subs := [("m.a", 1)], objs := [(1, { uid := 1, rid := "m.a", name := "m.a", query := "", state := .sent, res := some (5, 9) })] },
+              { cid := 1, subs := [("m.a", 2)], objs := [(2, { uid := 2, rid := "m.a", name := "m.a", query := "", state := .sent, res := some (5, 9) })] }],
+    entries := [(5, { name := "m.a", count := 2 }), (6, { name := "m.b" })], live := [0, 1] }
+
+example : (releasesFor g0 0 5 [1]).length = 1 ∧ (releasesFor g0 0 6 [1]).length = 0 := by decide
 
 end Resgate.C11
